@@ -3,6 +3,7 @@ import ErrModel.Migrations
 import ErrModel.Accessors
 import ErrModel.Shape
 import ErrModel.Compat
+import ErrModel.Grpc
 /-
   Observation streams printed by the driver (and, identically, by the harness
   from the real code).
@@ -192,6 +193,25 @@ def runLine (line : String) : String :=
     match evalR line.length rx with
     | .ok (some e) => id ++ " " ++ obsCase4 e (unk.filterMap sxStr)
     | .ok none => id ++ " (res (nil))"
+    | .panic => id ++ " (res (panic))"
+    | .bad why => id ++ " (bad " ++ why ++ ")"
+  | some [.sym id, .list [.sym "grpc", rx, .list refs]] =>
+    let fuel := line.length
+    match evalR fuel rx with
+    | .ok e =>
+      match evalRefs fuel e refs with
+      | .inl _ => id ++ " (bad refs)"
+      | .inr rs =>
+        match viaGrpc vfStub 5001 e with
+        | none => id ++ " (res (panic))"
+        | some none => id ++ " (res (nil))"
+        | some (some got) =>
+          id ++ " " ++ pList ["res",
+            pList ["code", pNat ((visibleCode vfStub e).getD 0)],
+            pList ["tree", pTree got],
+            pList ["enc", pEnc (encode Full vfStub got)],
+            pList ["acc", pAcc got],
+            pList ["is", isVec (some got) rs]]
     | .panic => id ++ " (res (panic))"
     | .bad why => id ++ " (bad " ++ why ++ ")"
   | some [.sym id, .list [.sym "decode", wx]] =>
